@@ -221,8 +221,8 @@ def rowsWith (c : Char) : Nat :=
 
 /-- of the 52 listed `while` loops 12 are `proved` (or `proved in part`) by theorems of this property —
 `advance_until`, `expression` (in part), the comment scan, the consecutive-comments loop, the three
-loops of this file and the five parent walks of EPV/Props/C03Loops2.lean — and 40 are `argued` by
+loops of this file and the five parent walks of EPV/Props/C03Loops2.lean — and 41 are `argued` by
 reading; every row is one or the other -/
 theorem while_baseline_counts :
-    EPV.C03Cover.whileBaseline.length = 52 ∧ rowsWith 'p' = 12 ∧ rowsWith 'a' = 40 := by decide +kernel
+    EPV.C03Cover.whileBaseline.length = 53 ∧ rowsWith 'p' = 12 ∧ rowsWith 'a' = 41 := by decide +kernel
 end EPV.C03Loops
